@@ -6,6 +6,7 @@ import Pxv.Lemmas.TyCanon
 import Pxv.Lemmas.TyCanon2
 import Pxv.Model.TyParse
 import Pxv.Lemmas.TyParse4
+import Pxv.Lemmas.TyRenderLk
 /-!
 C17 — the type algebra used for dependency matching obeys its laws.
 Property theorems only; every statement is for all types, of any nesting depth.
@@ -184,6 +185,22 @@ theorem parse_render (t : Ty) (h : wf t = true) : parse (renderD false t) = some
 theorem parse_displayForError (t : Ty) (h : wf t = true) :
     parse (displayForError t).toList = some (strip t) := by
   simp [displayForError, String.toList_ofList, parse_render t h]
+
+/-- `render_type` (the rendering used for code generation, which looks crate names up by package id)
+    is `display_for_error` of the same type with every path's first segment replaced by its crate
+    name (`relabel`) — so the round trip above covers it too. -/
+theorem renderType_eq (lk : List (String × String)) (t t' : Ty) (h : relabel lk t = some t')
+    (hl : longPaths t = true) : renderType lk t = some (displayForError t') := by
+  simp [renderType, displayForError, renderLk_relabel lk false t t' h hl]
+
+theorem parse_renderType (lk : List (String × String)) (t t' : Ty) (h : relabel lk t = some t')
+    (hl : longPaths t = true) (hw : wf t' = true) :
+    (renderLk lk false t).bind parse = some (strip t') := by
+  rw [renderLk_relabel lk false t t' h hl]
+  exact parse_render t' hw
+
+example : renderType [("p1", "kk")] (.path false "p1" none ["k", "Holder"] (.ty (.generic "T") .nil))
+    = some "kk::Holder<T>" := by decide +kernel
 
 /-- Hence rendering is injective on well-formed types up to `strip`: two types with the same
     rendered source are the same type. -/
